@@ -1,7 +1,7 @@
 #!/bin/bash
 # usage: seed_eval.sh <Cxx> [name]   -- confirm a seeded change in its scratch worktree /tmp/seed/<Cxx>, run all checks on it,
 # and store it under /verif/seeded/<name>/
-P=$1; NAME=${2:-$1}; W=/tmp/seed/$P; S=$W/SEED; OUT=/verif/seeded/$NAME
+P=$1; NAME=${2:-$1}; BASE=${SEEDBASE:-/tmp/seed}; W=$BASE/$P; S=$W/SEED; OUT=/verif/seeded/$NAME
 export CARGO_NET_OFFLINE=true
 set -u
 cd $W || exit 2
@@ -27,11 +27,11 @@ for c in $(python3 -c "import json;print(' '.join(x['property_id'] for x in json
 done
 echo "FIRED:$FIRED"
 mkdir -p $OUT; cp $S/patch.diff $OUT/; [ -f $S/seed_demo.rs ] && cp $S/seed_demo.rs $OUT/; [ -d $S/demo ] && { rm -rf $OUT/demo; mkdir -p $OUT/demo; (cd $S/demo && tar cf - --exclude target . ) | (cd $OUT/demo && tar xf -); }
-python3 - "$P" "$NAME" "$R0" "$R1" "$R2" "$FIRED" <<'PY'
+python3 - "$P" "$NAME" "$R0" "$R1" "$R2" "$FIRED" "$BASE" <<'PY'
 import json,sys,os
-P,NAME,R0,R1,R2,FIRED=sys.argv[1:7]
+P,NAME,R0,R1,R2,FIRED,BASE=sys.argv[1:8]
 meta={}
-try: meta=json.load(open('/tmp/seed/%s/SEED/meta.json'%P))
+try: meta=json.load(open('%s/%s/SEED/meta.json'%(BASE,P)))
 except Exception as e: meta={"note":"agent meta unreadable: %s"%e}
 out={"property":P,"summary":meta.get("summary"),"needs":meta.get("needs"),"files":meta.get("files"),
  "confirmed":{"demo_on_original":R0.strip(),"demo_with_change":R1.strip(),"existing_suite_with_change":R2.strip()},
